@@ -241,7 +241,11 @@ def check_proj(case, ctx):
     vals = values.copy()
     for i, j in case["holes"]:
         vals[i, j] = np.nan
-    grid = xr.DataArray(vals, coords={"northing": north, "easting": east}, dims=("northing", "easting"), name=case["name"])
+    extra_coords = {}
+    if build.small_hash(case, 18) % 3 == 0:
+        # a grid as gridder.grid(extra_coords=...) / make_xarray_grid(extra_coords_names=...) hands it on: with a non-dimension coordinate (observation height)
+        extra_coords = {"upward": (("northing", "easting"), np.full(vals.shape, 1200.0))}
+    grid = xr.DataArray(vals, coords={"northing": north, "easting": east, **extra_coords}, dims=("northing", "easting"), name=case["name"])
     desc = case["projection"]
     proj = make_proj(desc)
     pe, pn = proj(ee, nn)
@@ -353,7 +357,7 @@ def check_proj(case, ctx):
         # between the nodes the cubic interpolant reproduces an affine field only approximately
         rtol = 1e-9 if case["method"] == "linear" else 1e-3
         ctx.check(np.all(np.abs(res[okm] - exp[okm]) <= rtol * max(1.0, np.abs(exp).max())), "affine data are not reproduced by the %s interpolation", case["method"])
-    ctx.label(desc["kind"], case["method"], "antialias" if case["antialias"] else "no_antialias", "kw_" + case["kw"], "holes" if case["holes"] else "no_holes", "method_as_" + mform)
+    ctx.label(desc["kind"], case["method"], "antialias" if case["antialias"] else "no_antialias", "kw_" + case["kw"], "holes" if case["holes"] else "no_holes", "method_as_" + mform, "with_extra_coordinate" if extra_coords else "plain_grid")
     if n_out:
         ctx.label("nodes_outside_hull")
     if n_d12:
